@@ -2,7 +2,7 @@
 # tools/mut.sh <patch-file|-e sed-expr file> -- <check id> [args]   : run a check against a mutated scratch worktree
 # usage: tools/mut.sh patch.diff C22 [--tier quick]
 set -e
-PATCH="$1"; shift
+PATCH="$(readlink -f "$1")"; shift
 W=$(mktemp -d /tmp/mut-XXXXXX)
 rmdir "$W"
 git -C /repo worktree add --detach "$W" HEAD >/dev/null 2>&1
